@@ -42,6 +42,11 @@ def gen(rng, sid):
     ident = rng.randrange(65536)
     if v6:
         s6, d6 = rng.randrange(1 << 64) & ~1, rng.randrange(1 << 64) & ~1          # first byte even: never ff02::
+        mcast = None
+        if rng.random() < 0.3:
+            # a multicast destination: only link-local scope (ff02::/16) is answered by arbitrary sources
+            mcast = rng.choice([1, 2, 2, 5, 8, 14])
+            d6 = (d6 & ~0xffff) | 0xff | (((mcast - 1) & 0xff) << 8)        # ip6() adds the byte index: second byte = scope
         lines += ['set %d src_addr %d' % (k, s6), 'set %d dst_addr %d' % (k, d6)]
         sa, da = ip6(s6), ip6(d6)
     else:
@@ -86,16 +91,36 @@ def gen(rng, sid):
         fields = [('icmp id', 4, 2), ('icmp sequence', 6, 2)]
     lines.append('ser')        # the request is "sent": derived fields (protocol, ...) are now set
     extra = []
+    hsize = 20
+    if not v6 and l2 == 'none' and l4 in ('UDP', 'ICMP') and rng.random() < 0.5:
+        # the request carries IPv4 options (header longer than 20 bytes): built as bytes and parsed, since options are not scalar fields
+        nopt = 4 * rng.randrange(1, 11)
+        hsize = 20 + nopt
+        if l4 == 'UDP':
+            l4req = struct.pack('>HHHH', sport, dport, 8 + len(payload), 0) + payload
+        else:
+            l4req = struct.pack('>BBHHH', ty, 0, 0, icmp_id, icmp_seq) + (payload if ty == 8 else bytes(12 if ty == 13 else 4))
+        reqb = struct.pack('>BBHHHBBH', 0x40 | (hsize // 4), 0, hsize + len(l4req), ident, 0, 64, proto, 0) + sa + da + bytes([1] * nopt) + l4req
+        lines = ['parse IP x' + reqb.hex()]
     if v6:
         l3req = '[9 x%s x%s %s]' % (sa.hex(), da.hex(), inner)
         hl = 40
         reply_l3 = struct.pack('>IHBB', 6 << 28, len(reply_l4), proto, 64) + da + sa + reply_l4
         l3fields = [('ipv6 source', 8, 16), ('ipv6 destination', 24, 16)]
+        if mcast == 2:
+            l3fields = [('ipv6 destination', 24, 16)]      # a reply to ff02:: may come from anybody
     else:
-        l3req = '[2 x%s x%s 20 %d x%s %s]' % (sa.hex(), da.hex(), proto, h2(ident), inner)
+        l3req = '[2 x%s x%s %d %d x%s %s]' % (sa.hex(), da.hex(), hsize, proto, h2(ident), inner)
         hl = 20
         reply_l3 = struct.pack('>BBHHHBBH', 0x45, 0, 20 + len(reply_l4), rng.randrange(65536), 0, 64, proto, 0) + da + sa + reply_l4
         l3fields = [('ip source', 12, 4), ('ip destination', 16, 4)]
+        # the mirrored reply may carry IPv4 options of its own (longer header than the request's), also cut inside them
+        ropt = 4 * rng.randrange(1, 11)
+        reply_opt = struct.pack('>BBHHHBBH', 0x40 | ((20 + ropt) // 4), 0, 20 + ropt + len(reply_l4), rng.randrange(65536), 0, 64, proto, 0) + da + sa + bytes([1] * ropt) + reply_l4
+        extra.append(('mirrored reply with %d bytes of IPv4 options' % ropt, reply_opt, 1))
+        for cut in sorted(set([20, 21, 20 + ropt - 1, 20 + ropt, 20 + ropt + 1, 20 + ropt + 7, 20 + ropt + 8])):
+            if 20 <= cut < len(reply_opt):
+                extra.append(('reply with IPv4 options truncated to %d bytes' % cut, reply_opt[:cut], None))
         # ICMP destination unreachable from a router on the path: quoting OUR datagram / quoting somebody else's
         router = ip4(rng.randrange(1, 0xdfffffff))
         quoted = struct.pack('>BBHHHBBH', 0x45, 0, 20 + 8, ident, 0, 3, proto, 0x1234) + sa + da + bytes(rng.randrange(256) for _ in range(8))
